@@ -15,6 +15,7 @@ import (
 	"strings"
 
 	"github.com/0xPolygon/cdk-contracts-tooling/contracts/pp/l2-sovereign-chain/polygonrollupmanager"
+	"github.com/agglayer/aggkit/aggoracle/chaingerreader"
 	agglayertypes "github.com/agglayer/aggkit/agglayer/types"
 	aggsenderdb "github.com/agglayer/aggkit/aggsender/db"
 	"github.com/agglayer/aggkit/aggsender/flows"
@@ -52,6 +53,12 @@ type Options struct {
 	// syncer holds (the block was reorged away on L1 and the syncer has not processed the reorg yet), with the
 	// finalized pointer at that block and one past it. Only when that block was never finalized in the scenario.
 	L1OrphanEpilogue bool
+	// FEP: the certificates are built by the real AggchainProverFlow (a stand-in prover that proves what it is asked for,
+	// optimistic mode off) instead of the PP flow; a certificate recorded InError keeps its aggchain proof, so its retry
+	// takes the "resend with the stored proof" branch.
+	FEP bool
+	// BothFlows: a choice point at the start of every execution picks the PP flow or the aggchain-prover flow.
+	BothFlows bool
 	// DroppedL1ForkPrologue: the L1 info store may have synced a competing fork first — the same L1 transactions with two
 	// leaf-adding ones of one block in the other order (world.SwapVariants), one choice per such variant — and was rewound
 	// from block 1 before it synced the canonical chain.
@@ -148,8 +155,9 @@ var signerKey = func() *ecdsa.PrivateKey {
 
 // certRec is one certificate as the aggsender recorded it after sending.
 type certRec struct {
-	hdr types.CertificateHeader
-	raw string
+	hdr   types.CertificateHeader
+	raw   string
+	proof *types.AggchainProof // FEP: the aggchain proof stored with the certificate
 }
 
 // state is the content of the aggsender storage: the chain of recorded certificates.
@@ -198,7 +206,7 @@ type exec struct {
 	st      *world.Stores
 	storage *aggsenderdb.AggSenderSQLStorage
 	l1      *l1Client
-	flows   map[uint]*flows.PPFlow
+	flows   map[uint]types.AggsenderFlow
 	opt     Options
 	oracle  Oracle
 	seq     uint64
@@ -219,7 +227,7 @@ func (x *exec) install(s state) error {
 		final := h.Status
 		h.Status = agglayertypes.Pending
 		raw := r.raw
-		if err := x.storage.SaveLastSentCertificate(x.ctx, types.Certificate{Header: &h, SignedCertificate: &raw}); err != nil {
+		if err := x.storage.SaveLastSentCertificate(x.ctx, types.Certificate{Header: &h, SignedCertificate: &raw, AggchainProof: r.proof}); err != nil {
 			return err
 		}
 		if err := x.storage.UpdateCertificateStatus(x.ctx, h.CertificateID, final, h.CreatedAt+1); err != nil {
@@ -229,9 +237,12 @@ func (x *exec) install(s state) error {
 	return nil
 }
 
-func (x *exec) flow(maxSize uint) *flows.PPFlow {
+func (x *exec) flow(maxSize uint) types.AggsenderFlow {
 	if f, ok := x.flows[maxSize]; ok {
 		return f
+	}
+	if x.opt.FEP {
+		return x.fepFlow(maxSize)
 	}
 	// exactly the wiring of flows.NewFlow for PessimisticProofMode
 	logger := kit.Logger()
@@ -244,6 +255,49 @@ func (x *exec) flow(maxSize uint) *flows.PPFlow {
 	base := flows.NewBaseFlow(logger, l2BridgeQuerier, x.storage, l1InfoTreeQuerier, lerQuerier,
 		flows.NewBaseFlowConfig(maxSize, 0, false))
 	f := flows.NewPPFlow(logger, base, x.storage, l1InfoTreeQuerier, l2BridgeQuerier, &ecdsaSigner{signerKey}, false, 0)
+	x.flows[maxSize] = f
+	return f
+}
+
+type standInProver struct{}
+
+func (standInProver) GenerateAggchainProof(_ context.Context, req *types.AggchainProofRequest) (*types.AggchainProof, error) {
+	if req.RequestedEndBlock <= req.LastProvenBlock {
+		return nil, fmt.Errorf("stand-in prover: empty range (%d,%d]", req.LastProvenBlock, req.RequestedEndBlock)
+	}
+	return &types.AggchainProof{LastProvenBlock: req.LastProvenBlock, EndBlock: req.RequestedEndBlock,
+		CustomChainData: []byte{0xcc}, AggchainParams: ref.Keccak([]byte(fmt.Sprintf("params-%d-%d", req.LastProvenBlock, req.RequestedEndBlock))),
+		Context:       map[string][]byte{"k": {1}},
+		SP1StarkProof: &types.SP1StarkProof{Version: "verif", Proof: []byte{0x51}, Vkey: []byte{0x76}}}, nil
+}
+
+func (standInProver) GenerateOptimisticAggchainProof(*types.AggchainProofRequest, []byte) (*types.AggchainProof, error) {
+	return nil, fmt.Errorf("stand-in prover: optimistic mode is off")
+}
+
+type noInjectedGERs struct{}
+
+func (noInjectedGERs) GetInjectedGERsForRange(context.Context, uint64, uint64) (map[common.Hash]chaingerreader.InjectedGER, error) {
+	return map[common.Hash]chaingerreader.InjectedGER{}, nil
+}
+
+type optimisticOff struct{}
+
+func (optimisticOff) IsOptimisticModeOn() (bool, error) { return false, nil }
+
+// fepFlow: the wiring of flows.NewFlow for AggchainProofMode around the same base flow and queriers.
+func (x *exec) fepFlow(maxSize uint) types.AggsenderFlow {
+	logger := kit.Logger()
+	lerQuerier, err := query.NewLERDataQuerier(common.Address{}, 0, rollupData{})
+	if err != nil {
+		panic(err)
+	}
+	l2BridgeQuerier := query.NewBridgeDataQuerier(logger, x.st.L2Bridge, 0)
+	l1InfoTreeQuerier := query.NewL1InfoTreeDataQuerier(x.l1, x.st.L1Info)
+	base := flows.NewBaseFlow(logger, l2BridgeQuerier, x.storage, l1InfoTreeQuerier, lerQuerier,
+		flows.NewBaseFlowConfig(maxSize, 0, false))
+	f := flows.NewAggchainProverFlow(logger, flows.NewAggchainProverFlowConfig(0), base, standInProver{}, x.storage, l1InfoTreeQuerier,
+		l2BridgeQuerier, query.NewGERDataQuerier(l1InfoTreeQuerier, noInjectedGERs{}), x.l1, &ecdsaSigner{signerKey}, optimisticOff{}, nil)
 	x.flows[maxSize] = f
 	return f
 }
@@ -320,7 +374,7 @@ func (x *exec) record(b *Built, status agglayertypes.CertificateStatus, dropPrev
 		h.PreviousLocalExitRoot = nil
 		h.CertSource = types.CertificateSourceAggLayer
 	}
-	return certRec{hdr: h, raw: string(raw)}
+	return certRec{hdr: h, raw: string(raw), proof: b.Params.AggchainProof}
 }
 
 // Run is one execution: one scenario, every stage of the L2 syncer, every reachable storage state
@@ -328,6 +382,10 @@ func (x *exec) record(b *Built, status agglayertypes.CertificateStatus, dropPrev
 // configured size limit and finalized-pointer position.
 func Run(c *mc.Ctx, u mc.Unit, opt Options, oracle Oracle) {
 	p := u.Params.(Params)
+	if opt.BothFlows && c.Bool("aggchain-prover-flow") {
+		opt.FEP = true
+		c.Witness("executions_with_the_aggchain_prover_flow")
+	}
 	w, err := world.Build(p.Ops)
 	if err != nil {
 		c.Failf("harness/world", "%v", err)
@@ -372,7 +430,7 @@ func Run(c *mc.Ctx, u mc.Unit, opt Options, oracle Oracle) {
 		panic(err)
 	}
 	st.TrackDB(storage.VerifDB())
-	x := &exec{c: c, ctx: ctx, w: w, st: st, storage: storage, l1: &l1Client{w: w}, flows: map[uint]*flows.PPFlow{},
+	x := &exec{c: c, ctx: ctx, w: w, st: st, storage: storage, l1: &l1Client{w: w}, flows: map[uint]types.AggsenderFlow{},
 		opt: opt, oracle: oracle}
 
 	lastL1 := uint64(len(w.L1Blocks))
